@@ -45,7 +45,7 @@ var (
 	flagSeed = flag.Uint64("seed", 1, "")
 	flagTier = flag.String("tier", "quick", "")
 	flagDir  = flag.String("dir", ".", "")
-	flagMode = flag.String("mode", "seq", "seq | conc")
+	flagMode = flag.String("mode", "seq", "seq | conc | vmprobe")
 	flagRun  = flag.Int("run", 0, "index of this concurrent process (varies the task schedule)")
 )
 
@@ -57,7 +57,7 @@ type World struct {
 	codes     map[common.AddressLocation][]byte
 	stored    map[string][]byte
 	indices   map[string]uint64
-	programs  []Program
+	programs  []lib.C36Program
 	lexInputs []string
 	values    []cadence.Value
 }
@@ -66,7 +66,7 @@ func buildWorld(seed uint64, nProg, nLex int) *World {
 	r := lib.NewRng(seed)
 	w := &World{}
 	h := lib.NewHost()
-	for _, c := range []struct{ name, code string }{{"Base", baseContract(r)}, {"Lib", libContract(r)}} {
+	for _, c := range []struct{ name, code string }{{"Base", lib.C36BaseContract(r)}, {"Lib", lib.C36LibContract(r)}, {"Col", lib.C36ColContract(r)}} {
 		o := h.Deploy(addr1, c.name, c.code, false)
 		if o.Err != nil || o.Panic != nil {
 			fmt.Fprintf(os.Stderr, "deploying %s failed: %v %v\n%s\n", c.name, o.Err, o.Panic, c.code)
@@ -80,12 +80,12 @@ func buildWorld(seed uint64, nProg, nLex int) *World {
 	w.stored = h.Ledger.StoredValues
 	w.indices = h.Ledger.StorageIndices
 	for i := 0; i < nProg; i++ {
-		w.programs = append(w.programs, genProgram(r, i))
+		w.programs = append(w.programs, lib.C36GenProgram(r, i, false))
 	}
 	for i := 0; i < nLex; i++ {
 		src := w.programs[r.Intn(len(w.programs))].Src
 		if i%3 != 0 {
-			src = mutateSource(r, src)
+			src = lib.C36MutateSource(r, src)
 		}
 		w.lexInputs = append(w.lexInputs, src)
 	}
@@ -284,8 +284,10 @@ func (w *World) checkerConfig(sh *Shared) *sema.Config {
 				}
 				return nil, err
 			}
-			elabs.Store(loc, ch.Elaboration)
-			return sema.ElaborationImport{Elaboration: ch.Elaboration}, nil
+			// first stored elaboration wins, so that every checker sees ONE elaboration per location
+			// (sema compares entitlement / interface sets by pointer identity of the declared types)
+			actual, _ := elabs.LoadOrStore(loc, ch.Elaboration)
+			return sema.ElaborationImport{Elaboration: actual.(*sema.Elaboration)}, nil
 		},
 	}
 	return cfg
@@ -326,7 +328,7 @@ func elabProjection(el *sema.Elaboration) string {
 	return fmt.Sprintf("exprs=%d %s", len(rows), digest(sb.String()))
 }
 
-func (w *World) checkTask(sh *Shared, p Program, sharedAST bool) (obs string) {
+func (w *World) checkTask(sh *Shared, p lib.C36Program, sharedAST bool) (obs string) {
 	defer func() {
 		if r := recover(); r != nil {
 			obs = fmt.Sprintf("PANIC %v", r)
@@ -346,7 +348,8 @@ func (w *World) checkTask(sh *Shared, p Program, sharedAST bool) (obs string) {
 			return "parse-error:" + errList(err)
 		}
 		if sharedAST {
-			sh.asts.Load().Store(p.ID, prog)
+			actual, _ := sh.asts.Load().LoadOrStore(p.ID, prog)
+			prog = actual.(*ast.Program)
 		}
 	}
 	ch, err := sema.NewChecker(prog, common.StringLocation(p.ID), nil, w.checkerConfig(sh))
@@ -357,7 +360,7 @@ func (w *World) checkTask(sh *Shared, p Program, sharedAST bool) (obs string) {
 	return "errors=[" + errList(err) + "] " + elabProjection(ch.Elaboration)
 }
 
-func progLocation(p Program) common.Location {
+func progLocation(p lib.C36Program) common.Location {
 	var id [32]byte
 	copy(id[:], p.ID)
 	if p.Kind == "tx" {
@@ -366,7 +369,7 @@ func progLocation(p Program) common.Location {
 	return common.ScriptLocation(id)
 }
 
-func (w *World) execTask(sh *Shared, p Program, vm bool) (obs string) {
+func (w *World) execTask(sh *Shared, p lib.C36Program, vm bool, args ...cadence.Value) (obs string) {
 	stored := make(map[string][]byte, len(w.stored))
 	for k, v := range w.stored {
 		stored[k] = v
@@ -397,16 +400,21 @@ func (w *World) execTask(sh *Shared, p Program, vm bool) (obs string) {
 		},
 		OnGetAccountContractCode: func(location common.AddressLocation) ([]byte, error) { return w.codes[location], nil },
 		OnGetOrLoadProgram: func(location crt.Location, load func() (*crt.Program, error)) (*crt.Program, error) {
-			// the embedder's program cache, as in the repository's own TestRuntimeConcurrentImport
+			// the embedder's program cache (shape of the repository's own TestRuntimeConcurrentImport), with
+			// first-writer-wins so that all goroutines observe ONE program per location: a cache that lets two
+			// different checked programs of the same contract circulate makes the checker report
+			// "expected T, got T" (declared types are compared by pointer in entitlement / interface sets);
+			// keeping the view consistent is the embedder's job (flow-go: one program per location per block view)
 			programs := sh.programs.Load()
 			if item, ok := programs.Load(location); ok {
 				return item.(*crt.Program), nil
 			}
 			program, err := load()
-			if err == nil {
-				programs.Store(location, program)
+			if err != nil || program == nil {
+				return program, err
 			}
-			return program, err
+			actual, _ := programs.LoadOrStore(location, program)
+			return actual.(*crt.Program), nil
 		},
 		OnProgramLog: func(s string) { logs = append(logs, s) },
 		OnEmitEvent: func(e cadence.Event) error {
@@ -432,13 +440,20 @@ func (w *World) execTask(sh *Shared, p Program, vm bool) (obs string) {
 			}
 		} else {
 			var v cadence.Value
-			v, err = sh.rt.ExecuteScript(crt.Script{Source: []byte(p.Src)}, ctx)
+			var enc [][]byte
+			for _, a := range args {
+				enc = append(enc, cjson.MustEncode(a))
+			}
+			v, err = sh.rt.ExecuteScript(crt.Script{Source: []byte(p.Src), Arguments: enc}, ctx)
 			if err == nil {
 				res = "ok:" + v.String()
 			}
 		}
 		if err != nil {
 			res = "err:" + lib.ClassifyRuntimeError(err)
+			if os.Getenv("C36_DEBUG") != "" {
+				fmt.Fprintf(os.Stderr, "exec %s vm=%v: %v\n", p.ID, vm, err)
+			}
 			var pe *crt.ParsingCheckingError
 			if asErr(err, &pe) {
 				res += "[" + errList(pe.Err) + "]"
@@ -529,6 +544,97 @@ func (w *World) describe(t Task) any {
 	return map[string]any{"stage": t.Stage, "program": p.ID, "kind": p.Kind, "forms": p.Forms, "source": p.Src}
 }
 
+// vmProbe deterministically exercises the known findings about concurrent VM execution on shared programs:
+//  (1) 8 goroutines execute, with the VM and an EMPTY shared program cache, scripts importing the shared
+//      contracts: runtime.(*vmEnvironment).loadProgram compiles a cached program lazily
+//      (`if program.compiledProgram == nil { program.compiledProgram = compile(...) }`) without synchronisation,
+//      so goroutines race on the field and read compiled code published without a happens-before edge;
+//  (2) the same with a contract that declares an enum: bbq/compiler.newEnumLookup ->
+//      DesugaredElaboration.SetIntegerExpressionType writes into the map sema.Elaboration.integerExpressionTypes
+//      of the SHARED checked program while other goroutines read it (Go may abort: concurrent map read/write);
+//  (3) 8 goroutines execute a PRE-COMPILED script whose string constant's length has not been taken yet: the
+//      constant is one *interpreter.StringValue in the shared compiled program, and StringValue.Length caches its
+//      result (and iterates through state) inside the value.
+// The process may be killed by the Go runtime in (2); results are written after each part.
+func vmProbe(w *World) {
+	sum := &lib.Summary{Distribution: map[string]int{}}
+	write := func() {
+		b, _ := json.MarshalIndent(sum, "", " ")
+		_ = os.WriteFile(filepath.Join(*flagDir, "summary_probe.json"), b, 0o644)
+	}
+	sh := newShared()
+	runAll := func(part string, progs []lib.C36Program, rounds int, cold bool, warm func(p lib.C36Program), args ...cadence.Value) {
+		want := map[string]string{}
+		for _, p := range progs {
+			want[p.ID] = w.execTask(sh, p, true, args...)
+		}
+		for round := 0; round < rounds; round++ {
+			if cold {
+				sh.reset()
+			}
+			if warm != nil {
+				sh.reset()
+				for _, p := range progs {
+					warm(p)
+				}
+			}
+			const G = 8
+			res := make([]string, G)
+			start := make(chan struct{})
+			var wg sync.WaitGroup
+			for g := 0; g < G; g++ {
+				g := g
+				wg.Add(1)
+				go func() {
+					defer wg.Done()
+					<-start
+					res[g] = w.execTask(sh, progs[g%len(progs)], true, args...)
+				}()
+			}
+			close(start)
+			wg.Wait()
+			for g := 0; g < G; g++ {
+				sum.Evaluations++
+				sum.Count("probe " + part)
+				if res[g] != want[progs[g%len(progs)].ID] {
+					sum.Fail("conc-mismatch:vmprobe:"+part, fmt.Sprintf("%s: concurrent %q, sequential %q", part, res[g], want[progs[g%len(progs)].ID]),
+						map[string]any{"program": progs[g%len(progs)].Src, "part": part})
+				}
+			}
+		}
+		write()
+	}
+	// (3) first: it needs a process in which the constant's length is still uncomputed
+	strProg := lib.C36Program{ID: "strconst", Kind: "script", Src: `
+access(all) fun main(n: Int): Int {
+ if n == 0 { return 0 }
+ return "h\u{e9}llo w\u{f6}rld, shared constant".length
+}`}
+	runAll("string-constant-length", []lib.C36Program{strProg}, 4, false,
+		func(p lib.C36Program) { w.execTask(sh, p, true, cadence.NewInt(0)) }, cadence.NewInt(1))
+	// (1)
+	var plain []lib.C36Program
+	for i := 0; i < 3; i++ {
+		plain = append(plain, lib.C36Program{ID: fmt.Sprintf("plain%d", i), Kind: "script", Src: fmt.Sprintf(`
+import Base from 0x1
+import Lib from 0x1
+access(all) fun main(): [String] {
+ return [Base.sumRange(1, %d).toString(), Lib.total(Base.shapes()).toString()]
+}`, 3+i)})
+	}
+	runAll("cold-vm-compile", plain, 4, true, nil)
+	// (2)
+	var enums []lib.C36Program
+	for i := 0; i < 3; i++ {
+		enums = append(enums, lib.C36Program{ID: fmt.Sprintf("enum%d", i), Kind: "script", HasEnum: true, Src: fmt.Sprintf(`
+import Col from 0x1
+access(all) fun main(): [String] {
+ return [Col.pick(%d).rawValue.toString(), (Col.Color(rawValue: %d)?.rawValue ?? 9).toString()]
+}`, i, i)})
+	}
+	runAll("cold-vm-compile-enum", enums, 6, true, nil)
+}
+
 // ---------------------------------------------------------------- main
 
 func main() {
@@ -593,6 +699,11 @@ func main() {
 		return
 	}
 
+	if *flagMode == "vmprobe" {
+		vmProbe(w)
+		return
+	}
+
 	// ---- concurrent mode
 	b, err := os.ReadFile(refPath)
 	if err != nil {
@@ -630,6 +741,12 @@ func main() {
 		if fresh {
 			sh.reset()
 		}
+		// Round type A (even rounds): no VM tasks; parsing, checking and interpreting start from whatever the
+		// shared caches hold (empty when fresh).  Round type B (odd rounds): VM tasks allowed; every program run
+		// with the VM in this round is first executed once sequentially, so that its lazily compiled code (and
+		// that of its imports) is published before the goroutines start: the unsynchronised lazy compilation of
+		// cached programs is a known finding exercised by -mode vmprobe and must not mask other defects here.
+		vmRound := round%2 == 1
 		// a "hot set" of few items per round makes goroutines collide on the same programs
 		hot := make([]int, 3+r.Intn(4))
 		for i := range hot {
@@ -650,7 +767,28 @@ func main() {
 				if r.Chance(2, 3) {
 					item = hot[r.Intn(len(hot))] % n
 				}
+				if st == "execvm" && !vmRound {
+					st = "exec"
+				}
+				if st == "execvm" && w.programs[item].HasEnum {
+					// VM compilation of a program that declares an enum writes into the shared elaboration
+					// (known finding, exercised by -mode enumprobe): keep it out of the main workload so that
+					// one defect cannot mask others (the Go runtime may abort the process on it)
+					st = "exec"
+				}
 				lists[g] = append(lists[g], Task{st, item})
+			}
+		}
+		if vmRound {
+			warmed := map[int]bool{}
+			for g := range lists {
+				for _, t := range lists[g] {
+					if t.Stage == "execvm" && !warmed[t.Item] {
+						warmed[t.Item] = true
+						w.runTask(sh, t)
+						sum.Count("sequential VM warm-ups")
+					}
+				}
 			}
 		}
 		spins := make([]int, G)
@@ -686,6 +824,9 @@ func main() {
 		sum.Count(fmt.Sprintf("rounds with %d-%d goroutines", (G/4)*4, (G/4)*4+3))
 		if fresh {
 			sum.Count("rounds starting with empty shared caches")
+		}
+		if vmRound {
+			sum.Count("rounds with VM tasks (pre-compiled)")
 		}
 		for g := range lists {
 			for k, t := range lists[g] {
